@@ -15,6 +15,9 @@ type CatEntry struct {
 	Func string
 	W    *world.World
 	Act  world.Action
+	// Light marks classes that C11 uses as base cases with a single deviation only (their argument
+	// lists are long, the pairs of deviations around the shorter classes cover the same code)
+	Light bool
 }
 
 // catalogueBase: mixed, a0 with every role on S and F, the contract s0 holding F and (S,1),
@@ -34,6 +37,7 @@ func catalogueBase(env *world.Env) *world.World {
 func Catalogue(env *world.Env) []CatEntry {
 	base := catalogueBase(env)
 	var out []CatEntry
+	heavyEnd := 0
 	add := func(name string, w *world.World, act world.Action) {
 		fn := act.Func
 		if act.Kind != world.ActCall {
@@ -100,6 +104,12 @@ func Catalogue(env *world.Env) []CatEntry {
 	delivery("MultiESDTNFTTransfer/delivery-fungible", base, uni.Multi(A0, C1, []uni.Ent{{Tok: uni.F, Nonce: 0, Q: 1}}))
 	delivery("MultiESDTNFTTransfer/delivery-mixed", base, uni.Multi(A0, C1, []uni.Ent{{Tok: uni.S, Nonce: 1, Q: 1}, {Tok: uni.F, Nonce: 0, Q: 1}}))
 	delivery("MultiESDTNFTTransfer/delivery-contract-with-call", base, uni.Multi(A0, S1, []uni.Ent{{Tok: uni.S, Nonce: 1, Q: 1}, {Tok: uni.S, Nonce: 2, Q: 1}}, f, []byte{7}))
+	heavy := len(out)
+	defer func() {
+		for i := heavy; i < heavyEnd; i++ {
+			out[i].Light = true
+		}
+	}()
 	// the destination already holds so much of the same nonce that the sum needs one more byte than
 	// the quantity sent (the entry written and priced at the destination is longer than the one sent)
 	rich := after(base, uni.Call(A0, A0, vmcommon.BuiltInFunctionESDTNFTAddQuantity, uni.S, uni.Big(1), uni.Big(70000)),
@@ -115,6 +125,7 @@ func Catalogue(env *world.Env) []CatEntry {
 	add("MultiESDTNFTTransfer/cross-shard-2-tokens-call-2-args", base, uni.Multi(A0, S1, []uni.Ent{{Tok: uni.S, Nonce: 1, Q: 1}, {Tok: uni.F, Nonce: 0, Q: 1}}, f, x, y))
 	add("MultiESDTNFTTransfer/cross-shard-1-token-call-5-args", base, uni.Multi(A0, S1, []uni.Ent{{Tok: uni.F, Nonce: 0, Q: 1}}, f, x, y, x, y, x))
 	delivery("MultiESDTNFTTransfer/delivery-contract-call-5-args", base, uni.Multi(A0, S1, []uni.Ent{{Tok: uni.F, Nonce: 0, Q: 1}}, f, x, y, x, y, x))
+	heavyEnd = len(out)
 	add("ESDTFreeze", base, uni.SysCall(B0, vmcommon.BuiltInFunctionESDTFreeze, uni.F))
 	frozen := after(base, uni.SysCall(B0, vmcommon.BuiltInFunctionESDTFreeze, uni.F))
 	add("ESDTUnFreeze", frozen, uni.SysCall(B0, vmcommon.BuiltInFunctionESDTUnFreeze, uni.F))
